@@ -35,3 +35,6 @@ def run(ctx, pid):
         ctx.replay(behs, pre, sdo_common.observe, variant="h0", defines=VARIANTS["h0"], ordered=True, label=label)
     walks = ctx.gen_walks("MCSsdoGen", "C04_walk.cfg", num=nwalk, depth=35, timeout=3000)
     ctx.replay(walks, pre, sdo_common.observe, variant="h0", defines=VARIANTS["h0"], ordered=True, label="walks_h0")
+    # direction code -> spec: recorded dialogues of a PRNG client validated by TLC against CoSsdo (CoSsdoTrace)
+    import sdo_trace
+    sdo_trace.run(ctx, 700 if q else 25000, ndlg=10)
